@@ -110,7 +110,7 @@ var builtinResults = []resultKind{
 	{"func() error", []string{"gFn", "func() error { return nil }", "(func() error)(nil)", "(&E{}).Error2"}},
 	{"I", []string{"gT", "&gT", "I(nil)", "gT.I"}},
 	{"string", []string{"string(gSl2)", "unsafe.String(unsafe.StringData(\"ab\"), 1)", "strings.Repeat(\"x\", 2)", "fmt.Sprint(min(\"a\", \"b\"))"}},
-	{"int", []string{"len(gSl)", "cap(gSl)", "len(gMap)", "len(gCh)", "cap(gCh)", "len(\"abc\")", "copy(gSl, gSl)", "copy([]byte(nil), \"abc\")", "min(gInt, 2)", "max(gInt, 2, 3)", "int(unsafe.Sizeof(gT))", "int(unsafe.Alignof(gT.A))", "int(unsafe.Offsetof(gT.B))", "int(real(complex(1.5, 2)))", "int(imag(complex128(1i)))"}},
+	{"int", []string{"len(gSl)", "cap(gSl)", "len(gMap)", "len(gCh)", "cap(gCh)", "len(\"abc\")", "copy(gSl, gSl)", "copy([]byte(nil), \"abc\")", "min(gInt, 2)", "max(gInt, 2, 3)", "int(unsafe.Sizeof(gT))", "int(unsafe.Alignof(gT.A))", "int(unsafe.Offsetof(gT.B))", "int(real(complex(float64(gInt), 2)))", "int(imag(complex128(1i)))"}},
 }
 
 var extraDecls = `
@@ -179,6 +179,15 @@ var stmtSnippets = []struct {
 	case 0, 1:
 		s += "a"
 	default:
+	}
+	switch n > 1 && len(s) > 0 || x == nil {
+	case true:
+		s += "t"
+	case false:
+		s += "f"
+	}
+	switch z := n > 0; !z || n%%2 == 0 {
+	case true:
 	}
 	if e, ok := x.(error); ok && e != nil {
 		s += e.Error()
